@@ -91,17 +91,20 @@ func (n *Namespace) OnServerSideEmit(eventName string, _v ...any) {
 
 	go func() {
 		for _, handler := range handlers {
-			if len(values) == len(handler.inputArgs) {
-				for i, v := range values {
-					if handler.inputArgs[i].Kind() != reflect.Ptr && v.Kind() == reflect.Ptr {
-						values[i] = v.Elem()
-					}
-				}
-			} else {
+			// A handler whose signature does not fit this occurrence is skipped;
+			// the other handlers of the event still run, each with its own arguments.
+			if len(values) != len(handler.inputArgs) {
 				n.debug.Log("Namespace.OnServerSideEmit: handler signature mismatch")
-				return
+				continue
 			}
-			handler.call(values...)
+			args := make([]reflect.Value, len(values))
+			for i, v := range values {
+				if handler.inputArgs[i].Kind() != reflect.Ptr && v.Kind() == reflect.Ptr {
+					v = v.Elem()
+				}
+				args[i] = v
+			}
+			handler.call(args...)
 		}
 	}()
 }
